@@ -418,11 +418,15 @@ pub fn m32_unavailable() -> Option<String> {
 }
 
 fn m32_run(entry: usize, start: u64) -> child::Outcome {
+    m32_run_args(&[entry.to_string(), start.to_string()])
+}
+
+pub fn m32_run_args(prog_args: &[String]) -> child::Outcome {
     let dir = rt::run::verif_root().join("harness/m32");
     child::run(
         "cargo",
-        &[
-            "+nightly".into(),
+        &vec![
+            "+nightly".to_string(),
             "miri".into(),
             "run".into(),
             "--offline".into(),
@@ -434,9 +438,10 @@ fn m32_run(entry: usize, start: u64) -> child::Outcome {
             "--target-dir".into(),
             rt::run::verif_root().join("harness/target/m32").to_string_lossy().into_owned(),
             "--".into(),
-            entry.to_string(),
-            start.to_string(),
-        ],
+        ]
+        .into_iter()
+        .chain(prog_args.iter().cloned())
+        .collect::<Vec<String>>(),
         &[("MIRIFLAGS", "-Zmiri-ignore-leaks -Zmiri-disable-stacked-borrows".to_string()), ("RUSTFLAGS", String::new())],
         Duration::from_secs(600),
     )
@@ -522,5 +527,153 @@ impl Engine for C16M32Engine {
         }
         let trace_out = if trace { vec![format!("{} -> aborted={} stdout {:?}", what, aborted, o.stdout.trim())] } else { vec![] };
         CaseReport { viols: viol::take(), nontrivial, labels, trace: trace_out }
+    }
+}
+
+
+// ------------------------------------------------------------------------------------
+// the guard under concurrency: n threads clone ONE allocation whose count was preset near the limit, under the
+// harness-owned scheduler (a child process per schedule: an abort ends the process). With n clones starting
+// from s, some clone observes a count above the limit iff s + n - 1 > isize::MAX: then the process must abort
+// (a guard that checks BEFORE it increments lets several threads through at once); otherwise all succeed.
+// ------------------------------------------------------------------------------------
+
+pub const RACE_ENTRIES: [&str; 6] = ["Arc<T>::clone", "ThinArc::clone", "OffsetArc::clone", "ArcBorrow::clone_arc", "ArcUnion(second)::clone", "Arc<T>::clone_from"];
+
+struct SendPtr<T>(T);
+unsafe impl<T> Send for SendPtr<T> {}
+
+/// `tv child c16race <entry> <start> <nthreads> <sched hex>`
+pub fn race_child_main(entry: usize, start: usize, nthreads: usize, sched: Vec<u8>) -> ! {
+    use std::io::Write;
+    use std::mem::ManuallyDrop;
+    sim::set_check_live(false);
+    // handles are leaked on purpose (ManuallyDrop / forget): only increments are under test
+    let a = ManuallyDrop::new(Arc::new(7u64));
+    let t = ManuallyDrop::new(ThinArc::from_header_and_slice(9u8, &[1u32, 2]));
+    let addr = match entry {
+        1 => learn(|| ThinArc::strong_count(&t), Some(t.heap_ptr() as usize)),
+        _ => learn(|| Arc::count(&a), Some(a.heap_ptr() as usize)),
+    };
+    // bitwise aliases of `a` in other handle kinds (never dropped: they share a's single count)
+    let o = ManuallyDrop::new(Arc::into_raw_offset(unsafe { std::ptr::read(&*a) }));
+    let u: ManuallyDrop<ArcUnion<u8, u64>> = ManuallyDrop::new(ArcUnion::from_second(unsafe { std::ptr::read(&*a) }));
+    preset(addr, start);
+    let (n_stale, n_sched) = (sched.len() / 2, sched.len() - sched.len() / 2);
+    sim::begin(sim::Config { sched: sched[..n_sched].to_vec(), stale: sched[n_sched..n_sched + n_stale].to_vec(), trace: false });
+    let mut bodies: Vec<Box<dyn FnOnce() + Send>> = vec![];
+    for _ in 0..nthreads {
+        let pa = SendPtr(&*a as *const Arc<u64>);
+        let pt = SendPtr(&*t as *const ThinArc<u8, u32>);
+        let po = SendPtr(&*o as *const OffsetArc<u64>);
+        let pu = SendPtr(&*u as *const ArcUnion<u8, u64>);
+        bodies.push(Box::new(move || {
+            let (pa, pt, po, pu) = (pa, pt, po, pu);
+            unsafe {
+                match entry {
+                    0 => std::mem::forget((*pa.0).clone()),
+                    1 => std::mem::forget((*pt.0).clone()),
+                    2 => std::mem::forget((*po.0).clone()),
+                    3 => std::mem::forget((*pa.0).borrow_arc().clone_arc()),
+                    4 => std::mem::forget((*pu.0).clone()),
+                    _ => {
+                        let mut d = ManuallyDrop::new(Arc::new(1u64));
+                        Clone::clone_from(&mut *d, &*pa.0);
+                    }
+                }
+            }
+        }));
+    }
+    sim::run_threads(bodies);
+    let _ = sim::end();
+    println!("ALL-RETURNED count={}", current(addr));
+    let _ = std::io::stdout().flush();
+    unsafe { libc::_exit(0) }
+}
+
+pub struct C16RaceEngine;
+
+impl Engine for C16RaceEngine {
+    fn name(&self) -> String {
+        "c16-race-children".into()
+    }
+    fn params_len(&self) -> usize {
+        20
+    }
+    fn ops_range(&self) -> (usize, usize) {
+        (0, 0)
+    }
+    fn run(&self, c: &ByteCase, trace: bool) -> CaseReport {
+        let _ = viol::take();
+        let entry = pick(c.p(0), RACE_ENTRIES.len());
+        let nthreads = 2 + pick(c.p(1), 2);
+        let limit = isize::MAX as usize;
+        // starts around the limit: limit-2 .. limit+1
+        let start = limit - 2 + pick(c.p(2), 4);
+        let sched: String = c.params[3..].iter().map(|b| format!("{:02x}", b)).collect();
+        let o = child::run_self(&["child".into(), "c16race".into(), entry.to_string(), start.to_string(), nthreads.to_string(), sched], &[], Duration::from_secs(30));
+        let what = format!("{} by {} threads at once with the count preset to isize::MAX{:+}", RACE_ENTRIES[entry], nthreads, start as i128 - limit as i128);
+        let all = o.stdout.lines().find(|l| l.starts_with("ALL-RETURNED")).map(|l| l.to_string());
+        let aborted = matches!(o.signal, Some(6) | Some(4));
+        let must_abort = start + nthreads - 1 > limit;
+        if o.timed_out || o.stdout.contains("SETUP-FAILED") {
+            viol::report_sig(&["C16"], "O.setup", format!("race-setup:{}", RACE_ENTRIES[entry]), format!("{}: child setup failed / timed out: {}", what, o.stdout.trim()));
+        } else if must_abort {
+            if !aborted || all.is_some() {
+                viol::report_sig(&["C16"], "O.overflow-race", format!("race:{}", RACE_ENTRIES[entry]), format!("{}: one of the clones happens with the count already above the limit, yet every clone returned a handle ({}); exit {:?} signal {:?}", what, all.unwrap_or_default(), o.code, o.signal));
+            }
+        } else {
+            let want = format!("ALL-RETURNED count={}", start + nthreads);
+            if aborted || all.as_deref() != Some(want.as_str()) {
+                viol::report_sig(&["C16"], "O.overflow-race", format!("race-below:{}", RACE_ENTRIES[entry]), format!("{}: every clone happens at or below the limit: expected {}, got exit {:?} signal {:?} stdout {:?}", what, want, o.code, o.signal, o.stdout.trim()));
+            }
+        }
+        let labels: Vec<&'static str> = vec![if must_abort { "race: must abort" } else { "race: all clones legal" }];
+        let tr = if trace { vec![format!("{} -> exit {:?} signal {:?} stdout {:?}", what, o.code, o.signal, o.stdout.trim())] } else { vec![] };
+        CaseReport { viols: viol::take(), nontrivial: must_abort, labels, trace: tr }
+    }
+}
+
+
+// ------------------------------------------------------------------------------------
+// C11 on a 32-bit usize: the raw-pointer round trips of harness/m32 (`rt <shape> <path> <seed>`) over 12 payload
+// shapes (alignment 1..64, zero-sized, sizes that are not multiples of the word) x 8 paths
+// ------------------------------------------------------------------------------------
+
+pub struct C11M32Engine;
+
+pub const M32_SHAPES: [&str; 12] = ["align 1 size 1", "align 1 size 3", "align 2 size 6", "align 4 size 4", "align 4 size 12", "align 8 size 8", "align 8 size 24", "align 16 size 16", "align 64 size 64", "zero-sized align 1", "zero-sized align 8", "zero-sized align 64"];
+pub const M32_PATHS: [&str; 8] = ["into_raw/from_raw", "into_raw_offset/from_raw_offset + OffsetArc clone/clone_arc", "ArcBorrow::from_ptr(as_ptr) clone_arc/with_arc", "ArcUnion second + first", "dyn cast round trip", "with_raw_offset_arc", "Arc<[T]> into_raw/from_raw_slice (also empty)", "ThinArc into_raw/from_raw/from_thin"];
+
+impl Engine for C11M32Engine {
+    fn name(&self) -> String {
+        "c11-miri-i686/grid".into()
+    }
+    fn params_len(&self) -> usize {
+        3
+    }
+    fn ops_range(&self) -> (usize, usize) {
+        (0, 0)
+    }
+    fn enum_len(&self) -> Option<u64> {
+        Some((M32_SHAPES.len() * M32_PATHS.len()) as u64)
+    }
+    fn enum_at(&self, i: u64) -> Option<ByteCase> {
+        Some(ByteCase { params: vec![(i as usize / M32_PATHS.len()) as u8, (i as usize % M32_PATHS.len()) as u8, (i * 37 % 251) as u8], ops: vec![] })
+    }
+    fn run(&self, c: &ByteCase, trace: bool) -> CaseReport {
+        let _ = viol::take();
+        if let Some(why) = m32_unavailable() {
+            return CaseReport { viols: vec![], nontrivial: false, labels: vec!["miri-i686-unavailable"], trace: if trace { vec![format!("skipped: {}", why)] } else { vec![] } };
+        }
+        let (shape, path, seed) = (c.p(0) as usize % M32_SHAPES.len(), c.p(1) as usize % M32_PATHS.len(), c.p(2));
+        let o = m32_run_args(&["rt".to_string(), shape.to_string(), path.to_string(), seed.to_string()]);
+        let what = format!("[32-bit usize, Miri i686] payload {} through {}", M32_SHAPES[shape], M32_PATHS[path]);
+        let ok = o.stdout.lines().any(|l| l.trim() == "OK") && !o.stderr.contains("Undefined Behavior");
+        if !ok {
+            let detail = o.stdout.lines().find(|l| l.starts_with("BAD")).map(|l| l.to_string()).or_else(|| o.stderr.lines().find(|l| l.starts_with("error") || l.contains("panicked")).map(|l| l.to_string())).unwrap_or_else(|| format!("exit {:?}", o.code));
+            viol::report_sig(&["C11", "C05"], "P.m32-roundtrip", format!("m32:{}:{}", M32_SHAPES[shape], M32_PATHS[path]), format!("{}: {}", what, detail));
+        }
+        CaseReport { viols: viol::take(), nontrivial: shape >= 5 || shape == 1 || shape == 4, labels: vec!["32-bit"], trace: if trace { vec![format!("{} -> {}", what, if ok { "OK" } else { "FAILED" })] } else { vec![] } }
     }
 }
